@@ -95,16 +95,14 @@ def borrowOf (k : String) (info : BorrowInfo) (vs : AList String Rat) : Res Borr
 
 /-- `get_supply(token)` -/
 def getSupply (k : String) : M SupplyV := do
-  let s ← get
-  let info ← ofRes (optRes (AList.get? s.supplies k) .keySupply)
+  let info ← queryPos (fun sup _ => optRes (AList.get? sup k) .keySupply)
   let _ ← ofRes (env.statusOf k)          -- `amount=` and `apy=` are evaluated before `value=`
   let vs ← suppliesValue cx env
   ofRes (supplyOf cx env k info vs)
 
 /-- `get_borrow(token)` -/
 def getBorrow (k : String) : M BorrowV := do
-  let s ← get
-  let info ← ofRes (optRes (AList.get? s.borrows k) .keyBorrow)
+  let info ← queryPos (fun _ bor => optRes (AList.get? bor k) .keyBorrow)
   let _ ← ofRes (env.statusOf k)
   let vs ← borrowsValue cx env
   ofRes (borrowOf cx env k info vs)
@@ -125,18 +123,20 @@ def fillBorLoop : List String → M Unit
     fillBorLoop rest
 
 /-- `supplies` -/
-def suppliesView : M (AList String SupplyV) := do
-  let s ← get
-  if s.supC.empty then fillSupLoop cx env (keys s.supplies) else pure ()
-  let s ← get
-  pure s.supC.val
+def suppliesView : M (AList String SupplyV) := fun s =>
+  if s.supC.empty then
+    match fillSupLoop cx env (keys s.supplies) s with
+    | (.error e, s1) => (.error e, s1)
+    | (.ok (), s1) => (.ok s1.supC.val, s1)
+  else (.ok s.supC.val, s)
 
 /-- `borrows` -/
-def borrowsView : M (AList String BorrowV) := do
-  let s ← get
-  if s.borC.empty then fillBorLoop cx env (keys s.borrows) else pure ()
-  let s ← get
-  pure s.borC.val
+def borrowsView : M (AList String BorrowV) := fun s =>
+  if s.borC.empty then
+    match fillBorLoop cx env (keys s.borrows) s with
+    | (.error e, s1) => (.error e, s1)
+    | (.ok (), s1) => (.ok s1.borC.val, s1)
+  else (.ok s.borC.val, s)
 
 /-! ### risk figures (pure in the value dictionaries) -/
 
@@ -203,8 +203,7 @@ def supplyApy : M Rat := do
 
 /-- `borrow_apy` (iterates `self._borrows.keys()`) -/
 def borrowApy : M Rat := do
-  let s ← get
-  let rates ← ofRes ((keys s.borrows).mapM (fun k => do let st ← env.statusOf k; pure (k, st.varRate)))
+  let rates ← queryPos (fun _ bor => (keys bor).mapM (fun k => do let st ← env.statusOf k; pure (k, st.varRate)))
   let amounts ← borrowsValue cx env
   ofRes (apyOf cx amounts rates)
 
@@ -259,7 +258,7 @@ def marketBalance : M Balance := do
   let ba ← borrowApy cx env
   let ba ← ofRes (balQuant ba)
   let netApy := netApyOf cx sa ts ba tb
-  let s ← get
+  let cnt ← queryPos (fun sup bor => .ok (sup.length, bor.length))
   let lt ← liquidationThreshold cx env
   let lt ← ofRes (safeRounding lt)
   let hf ← healthFactor cx env
@@ -269,7 +268,7 @@ def marketBalance : M Balance := do
   let ml ← maxLtv cx env
   let ml ← ofRes (safeRounding ml)
   let ltv ← ltvView cx env
-  pure { netValue := net, suppliesCount := s.supplies.length, borrowsCount := s.borrows.length,
+  pure { netValue := net, suppliesCount := cnt.1, borrowsCount := cnt.2,
          liqThreshold := lt, healthFactor := hf, borrowsValue := tb, suppliesValue := ts,
          collateralsValue := tc, maxLtv := ml, ltv := ltv, supplyApy := sa, borrowApy := ba, netApy := netApy }
 
